@@ -639,6 +639,11 @@ def run_histories(report: common.Report, profile: str, count: int, length: int, 
         for zlevel, target in ((1, 50), (1, 120), (9, 400), (6, 10 ** 9)):
             histories, _res = simulate_histories(per_group, sim[1], zlevel, target, common.seed() * 1000 + target % 997)
             for steps in histories:
+                if rng.random() < 0.3:
+                    # LockStale is one successor among hundreds for TLC's simulator: the environment step is put in here;
+                    # the conformance check follows it like any other step
+                    steps = list(steps)
+                    steps.insert(rng.randrange(len(steps) + 1), {'name': 'stalelock'})
                 cfg = {'hash': rng.choice(['sha256', 'sha1']), 'prefix': rng.choice([0, 2, 3]), 'zlevel': zlevel,
                        'target': target}
                 jobs.append((len(jobs) + 1, cfg, steps))
